@@ -22,8 +22,52 @@ def _solver(timeout_ms):
     return s
 
 
+_STUCK = [False]
+
+
+def _check(sv, budget_s, watch=None):
+    '''sv.check() with a hard wall-clock guard.  z3 honours its `timeout` parameter
+    cooperatively and can overrun it by minutes in some preprocessing phases; the
+    check therefore runs in a thread, is interrupted at 1.5 x budget + 1 s (or when
+    `watch()` becomes true: another back end has answered), and is abandoned if it
+    does not come back within 3 more seconds.  After an abandoned check the z3
+    context of this process is not used again (_STUCK); the caller solves every
+    obligation in its own forked process, so the thread dies with it.'''
+    import threading
+    if _STUCK[0]:
+        return z3.unknown
+    box = []
+    th = threading.Thread(target=lambda: box.append(sv.check()), daemon=True)
+    th.start()
+    hard = time.time() + 1.5 * budget_s + 1.0
+    interrupted = False
+    while th.is_alive():
+        th.join(0.05)
+        if not th.is_alive():
+            break
+        if time.time() > hard or (watch is not None and watch()):
+            interrupted = True
+            try: sv.ctx.interrupt()
+            except Exception: pass
+            th.join(3.0)
+            break
+    if th.is_alive():
+        _STUCK[0] = True
+        return z3.unknown
+    if interrupted:
+        # an interrupt that arrived after the check had finished stays pending on
+        # the context and would cancel the next check: absorb it
+        for _ in range(3):
+            try:
+                if z3.Solver(ctx=sv.ctx).check() == z3.sat:
+                    break
+            except Exception:
+                break
+    return box[0] if box else z3.unknown
+
+
 def solve_obligation(o, timeout_s=10, dump_dir=None, inputs=None,
-                     use_cvc5=True):
+                     use_cvc5=True, allow_refute=True):
     '''sets o.status in {discharged, failed, unknown}, o.backend, o.time_s,
     o.model (python data for the inputs, when failed)'''
     t0 = time.time()
@@ -43,15 +87,60 @@ def solve_obligation(o, timeout_s=10, dump_dir=None, inputs=None,
             smt2 = None
     r = z3.unknown
     strategy = 'all'
-    if o.kind != 'canary':
+    refuted = False
+    if o.kind != 'canary' and allow_refute:
+        # refutation fallback, decided first (while no z3 check can have got stuck yet) and
+        # used only if everything below leaves the obligation open: do the hypotheses
+        # entail the NEGATION of the goal?  Then the obligation fails in every state
+        # that reaches this point - unless the hypotheses are inconsistent (an
+        # infeasible path, where both queries are unsat and the obligation is vacuous)
+        s3 = _solver(10000)
+        for a in C.str_axioms(): s3.add(a)
+        for h in o.hyps: s3.add(h)
+        s3.add(o.goal)
+        _r3 = _check(s3, 10)
+        if os.environ.get('PYVC_DEBUG_SOLVE'): print('DBG refute', _r3, _STUCK, flush=True)
+        if _r3 == z3.unsat:
+            s4 = _solver(8000)
+            for a in C.str_axioms(): s4.add(a)
+            for h in o.hyps: s4.add(h)
+            if _check(s4, 8) == z3.unsat:
+                r = z3.unsat
+                strategy = 'infeasible path (hypotheses inconsistent)'
+            else:
+                refuted = True
+    if o.kind != 'canary' and r == z3.unknown:
         # most obligations are immediate with all hypotheses
-        s0 = _solver(1500)
+        s0 = _solver(int(max(3.0, timeout_s / 10.0) * 1000))
         for a in C.str_axioms(): s0.add(a)
         for h in o.hyps: s0.add(h)
         s0.add(z3.Not(o.goal))
-        r = s0.check()
+        r = _check(s0, max(3.0, timeout_s / 10.0))
         if r == z3.sat:
             s = s0
+    early = None          # cvc5 on the full query, started as soon as z3's quick attempt fails
+    def _early_unsat():
+        if early is not None and early.poll() is not None:
+            out = (early.stdout.read() or '').strip().split('\n')[0]
+            early_box.append(out)
+            return out == 'unsat'
+        return False
+    early_box = []
+    def _early_definite():
+        '''cvc5 has answered sat / unsat (an error or `unknown` of cvc5 is no reason to
+        stop z3)'''
+        if early is not None and not early_box and early.poll() is not None:
+            early_box.append((early.stdout.read() or '').strip().split('\n')[0])
+        return bool(early_box) and early_box[0] in ('sat', 'unsat')
+    _dbg = os.environ.get('PYVC_DEBUG_SOLVE')
+    if _dbg: print('DBG quick done %.1f' % (time.time() - t0), r, flush=True)
+    if o.kind != 'canary' and r == z3.unknown and use_cvc5 and smt2:
+        try:
+            early = subprocess.Popen(['/usr/bin/cvc5', '--tlimit=%d' % int(timeout_s * 1000),
+                                      '--lang=smt2', smt2], stdout=subprocess.PIPE,
+                                     stderr=subprocess.DEVNULL, text=True)
+        except Exception:
+            early = None
     if o.kind != 'canary' and r == z3.unknown:
         # goal-directed pruning: a proof from a subset of the hypotheses is a
         # proof.  Quantified hypotheses that share no symbol with the goal
@@ -75,39 +164,63 @@ def solve_obligation(o, timeout_s=10, dump_dir=None, inputs=None,
         if len(conj) > 1 or True:
             ok = True
             for gpart in conj:
+                _t2 = time.time()
                 sub = focused_hyps(o.hyps, gpart, getattr(o, 'n_axioms', 0))
                 if sub is None:
                     ok = False; break
-                sp = _solver(int(min(timeout_s, 4) * 1000))
+                sp = _solver(int(max(min(timeout_s, 4), timeout_s / 5.0) * 1000))
                 for a in C.str_axioms(): sp.add(a)
                 for h in sub: sp.add(h)
                 sp.add(z3.Not(gpart))
-                if sp.check() != z3.unsat:
+                _t1 = time.time()
+                _r1 = _check(sp, max(min(timeout_s, 4), timeout_s / 5.0),
+                             watch=_early_definite)
+                if _r1 != z3.unsat and early_box and early_box[0] == 'unsat':
+                    r = z3.unsat
+                    strategy = 'cvc5'
+                    ok = False
+                    cands = []
+                    break
+                if _dbg: print('DBG   conjunct %d hyps: %s in %.1f (focus %.1f)' % (len(sub), _r1, time.time() - _t1, _t1 - _t2), flush=True)
+                if _r1 != z3.unsat:
                     ok = False; break
             if ok:
                 r = z3.unsat
                 strategy = 'focused-hyps per conjunct (%d conjuncts)' % len(conj)
                 cands = []
+        if _dbg: print('DBG focused done %.1f' % (time.time() - t0), r, flush=True)
         for label, sub in cands:
             if sub is None or len(sub) == len(o.hyps):
                 continue
+            if _dbg: print('DBG cand %s %.1f' % (label, time.time() - t0), flush=True)
+            if _early_definite() and early_box[0] == 'unsat':
+                r = z3.unsat
+                strategy = 'cvc5'
+                break
             depth = label
-            sp = _solver(int(min(timeout_s, 4) * 1000))
+            sp = _solver(int(max(min(timeout_s, 4), timeout_s / 5.0) * 1000))
             for a in C.str_axioms(): sp.add(a)
             for h in sub: sp.add(h)
             sp.add(z3.Not(o.goal))
-            if sp.check() == z3.unsat:
+            if _check(sp, max(min(timeout_s, 4), timeout_s / 5.0),
+                      watch=_early_definite) == z3.unsat:
                 r = z3.unsat
                 strategy = '%s: %d of %d hypotheses' % (
                            label, len(sub), len(o.hyps))
                 break
     cvc5_early = None
+    if _dbg: print('DBG strategies done %.1f' % (time.time() - t0), r, early_box, flush=True)
     if r == z3.unknown:
         # the full attempt: z3 with every hypothesis, and cvc5 on the dumped
         # query at the same time (whoever answers first decides; they never
         # disagree on a definite answer, an `unknown` of one is not an answer)
         proc = None
-        if use_cvc5 and smt2 and o.kind != 'canary':
+        if early is not None and not early_box:
+            proc = early                      # still running: keep waiting for it below
+        elif early_box:
+            proc = None                       # it has answered (not unsat): z3 alone
+            if early_box[0] == 'sat': cvc5_early = 'sat'
+        elif use_cvc5 and smt2 and o.kind != 'canary':
             try:
                 proc = subprocess.Popen(['/usr/bin/cvc5', '--tlimit=%d' % int(timeout_s * 1000),
                                          '--lang=smt2', smt2], stdout=subprocess.PIPE,
@@ -115,32 +228,16 @@ def solve_obligation(o, timeout_s=10, dump_dir=None, inputs=None,
             except Exception:
                 proc = None
         if proc is None:
-            r = s.check()
+            r = _check(s, timeout_s)
         else:
-            import threading
-            box = []
-            th = threading.Thread(target=lambda: box.append(s.check()))
-            th.start()
-            while th.is_alive():
-                th.join(0.05)
-                if th.is_alive() and proc.poll() is not None:
+            def _answered():
+                if proc.poll() is not None and not early_box:
                     out = (proc.stdout.read() or '').strip().split('\n')[0]
-                    if out in ('sat', 'unsat'):
-                        cvc5_early = out
-                        try: s.ctx.interrupt()
-                        except Exception: pass
-                        th.join()
-                    break
-            th.join()
-            r = box[0] if box else z3.unknown
-            if cvc5_early is not None:
-                # an interrupt that arrived after z3 had already finished stays
-                # pending on the context and would cancel the next check: absorb
-                # it with trivial checks until one goes through
-                for _ in range(3):
-                    d = z3.Solver(ctx=s.ctx)
-                    if d.check() == z3.sat:
-                        break
+                    early_box.append(out)
+                return bool(early_box) and early_box[0] in ('sat', 'unsat')
+            r = _check(s, timeout_s, watch=_answered)
+            if early_box and early_box[0] in ('sat', 'unsat'):
+                cvc5_early = early_box[0]
             if proc.poll() is None:
                 if r in (z3.sat, z3.unsat):
                     proc.kill()
@@ -150,13 +247,16 @@ def solve_obligation(o, timeout_s=10, dump_dir=None, inputs=None,
                         if out in ('sat', 'unsat'): cvc5_early = out
                     except Exception:
                         proc.kill()
-            elif cvc5_early is None:
+            elif cvc5_early is None and not early_box:
                 out = (proc.stdout.read() or '').strip().split('\n')[0]
                 if out in ('sat', 'unsat'): cvc5_early = out
             if cvc5_early == 'unsat' and r != z3.sat:
                 r = z3.unsat
                 strategy = 'cvc5'
             use_cvc5 = use_cvc5 and cvc5_early is None and False
+    if early is not None and early.poll() is None:
+        try: early.kill()
+        except Exception: pass
     o.backend = 'z3-%s' % z3.get_version_string()
     if strategy == 'cvc5':
         o.backend = 'cvc5-1.0.3'
@@ -188,17 +288,14 @@ def solve_obligation(o, timeout_s=10, dump_dir=None, inputs=None,
                 o.status, o.backend = 'discharged', 'cvc5-1.0.3'
             elif r2 == 'sat':
                 o.status, o.backend = 'failed', 'cvc5-1.0.3'
-        if o.status == 'unknown':
+        if o.status == 'unknown' and allow_refute:
             # refutation without a model: if the hypotheses *entail the negation*
             # of the goal, the obligation fails in every state that reaches this
             # point (the hypotheses themselves were not found inconsistent: the
             # query with the negated goal did not come back unsat)
-            s3 = _solver(int(min(timeout_s, 5) * 1000))
-            for a in C.str_axioms(): s3.add(a)
-            for h in o.hyps: s3.add(h)
-            s3.add(o.goal)
-            if s3.check() == z3.unsat:
+            if refuted:
                 o.status = 'failed'
+                o.refuted_only = True
                 o.reason = 'the hypotheses entail the negation of the goal (refuted on every input reaching this point)'
                 o.backend = 'z3-%s (negation proved)' % z3.get_version_string()
         if o.status == 'unknown':
@@ -212,7 +309,7 @@ def solve_obligation(o, timeout_s=10, dump_dir=None, inputs=None,
                 if not has_quant(h): s2.add(h)
             if not has_quant(o.goal):
                 s2.add(z3.Not(o.goal))
-                if s2.check() == z3.sat and inputs is not None:
+                if _check(s2, min(timeout_s, 5)) == z3.sat and inputs is not None:
                     try:
                         o.model = model_to_py(s2.model(), inputs)
                         o.candidate = True
@@ -322,6 +419,34 @@ def relevant_hyps(hyps, goal, depth):
         if not added:
             break
     return [h for i, h in enumerate(hyps) if chosen[i] or not quant[i]]
+
+
+def _cli_unsat(path, budget_s):
+    '''is the query in `path` unsat?  z3 and cvc5 as processes, side by side, with hard
+    time limits; `unsat` from either one decides'''
+    procs = []
+    for cmd in (['z3-new', '-T:%d' % int(budget_s), path],
+                ['/usr/bin/cvc5', '--tlimit=%d' % int(budget_s * 1000), '--lang=smt2', path]):
+        try:
+            procs.append(subprocess.Popen(cmd, stdout=subprocess.PIPE, stderr=subprocess.DEVNULL, text=True))
+        except Exception:
+            pass
+    end = time.time() + budget_s + 5
+    ans = False
+    live = list(procs)
+    while live and time.time() < end and not ans:
+        for p in list(live):
+            if p.poll() is not None:
+                live.remove(p)
+                out = (p.stdout.read() or '').strip().split('\n')[0]
+                if out == 'unsat':
+                    ans = True
+        time.sleep(0.05)
+    for p in procs:
+        if p.poll() is None:
+            try: p.kill()
+            except Exception: pass
+    return ans
 
 
 def run_cvc5(path, timeout_s):
